@@ -9,6 +9,7 @@ import (
 	"encoding/json"
 	"fmt"
 	"os"
+	"os/exec"
 	"path/filepath"
 	"sort"
 	"strconv"
@@ -256,4 +257,106 @@ func brief(cov map[string]any) string {
 		fmt.Fprintf(&sb, "%s=%v ", k, cov[k])
 	}
 	return strings.TrimSpace(sb.String())
+}
+
+// Partial is the serialisable content of a report, used to merge the results of shard processes.
+type Partial struct {
+	Coverage    map[string]any
+	Violations  []*Violation
+	Samples     []any
+	EngineError string
+}
+
+// Dump writes the report's content to path (shard side).
+func (r *Report) Dump(path string) error {
+	r.mu.Lock()
+	defer r.mu.Unlock()
+	p := Partial{Coverage: r.Coverage, Samples: r.samples, EngineError: r.engineErr}
+	for _, sig := range r.order {
+		p.Violations = append(p.Violations, r.viol[sig])
+	}
+	b, err := json.Marshal(p)
+	if err != nil {
+		return err
+	}
+	return os.WriteFile(path, b, 0o644)
+}
+
+// MergeFile merges a shard's dump: integer counters are added, booleans are and-ed, everything else is set.
+func (r *Report) MergeFile(path string) error {
+	b, err := os.ReadFile(path)
+	if err != nil {
+		return err
+	}
+	var p Partial
+	if err := json.Unmarshal(b, &p); err != nil {
+		return err
+	}
+	for k, v := range p.Coverage {
+		switch x := v.(type) {
+		case float64:
+			r.Add(k, int(x))
+		case bool:
+			r.And(k, x)
+		default:
+			r.Set(k, v)
+		}
+	}
+	for _, v := range p.Violations {
+		r.Violate(v.Sig, v.What, v.Replay)
+	}
+	for _, s := range p.Samples {
+		r.Sample(s)
+	}
+	if p.EngineError != "" {
+		r.EngineError("%s", p.EngineError)
+	}
+	return nil
+}
+
+// Shards runs one child process of this binary per part, at most par at a time, and merges their dumps. The
+// child is invoked as: <binary> -child <property> <tier> <part> <dumpfile>.
+func (r *Report) Shards(parts []string, par int, env func(part string) []string) {
+	dir, err := os.MkdirTemp("", "vshard")
+	if err != nil {
+		r.EngineError("shards: %v", err)
+		return
+	}
+	defer os.RemoveAll(dir)
+	sem := make(chan struct{}, par)
+	var wg sync.WaitGroup
+	outs := make([]string, len(parts))
+	errs := make([]string, len(parts))
+	for i, part := range parts {
+		wg.Add(1)
+		sem <- struct{}{}
+		go func() {
+			defer wg.Done()
+			defer func() { <-sem }()
+			outs[i] = filepath.Join(dir, fmt.Sprintf("part%d.json", i))
+			cmd := exec.Command(os.Args[0], "-child", r.Property, r.Tier, part, outs[i])
+			cmd.Env = os.Environ()
+			if env != nil {
+				cmd.Env = append(cmd.Env, env(part)...)
+			}
+			ob, err := cmd.CombinedOutput()
+			if err != nil {
+				tail := string(ob)
+				if len(tail) > 1500 {
+					tail = tail[len(tail)-1500:]
+				}
+				errs[i] = fmt.Sprintf("shard %s: %v: %s", part, err, tail)
+			}
+		}()
+	}
+	wg.Wait()
+	for i := range parts {
+		if errs[i] != "" {
+			r.EngineError("%s", errs[i])
+			continue
+		}
+		if err := r.MergeFile(outs[i]); err != nil {
+			r.EngineError("shard %s: %v", parts[i], err)
+		}
+	}
 }
